@@ -33,6 +33,12 @@ PROPS = {
                                        'SecNode.get_module contract (C15)'],
         uncovered=['generated module classes are abstracted by symbolic accessible tables (ModInv)'],
     ),
+    'C20': dict(
+        contract_files=['contracts/logging.py'],
+        level='proof',
+        trusted_base=COMMON_TRUSTED + ['level tables of mlzlog (stated in the contract, validated bounded)'],
+        uncovered=['Module.setRemoteLogging (parent walk over logger objects) and the dispatcher side of `logging` requests'],
+    ),
     'C02': dict(
         contract_files=['contracts/datatypes.py'],
         level='proof',
